@@ -8,6 +8,7 @@ import (
 	"sync"
 
 	"google.golang.org/grpc"
+	"google.golang.org/grpc/metadata"
 
 	"goatverif/bed"
 	"goatverif/core"
@@ -27,6 +28,7 @@ type c01Case struct {
 	CancelN   int    `json:"callers_cancelled_while_blocked,omitempty"`
 	LateN     int    `json:"callers_started_after_the_cancellations,omitempty"`
 	Abandoned int    `json:"responses_of_a_stream_abandoned_before_the_calls,omitempty"`
+	Clients   int    `json:"client_connections_on_one_server,omitempty"`
 }
 
 func c01Gen(seed int64, idx int) c01Case {
@@ -50,6 +52,11 @@ func c01Gen(seed int64, idx int) c01Case {
 		c.GatedPct, c.Cap = 100, 0
 		c.CancelN = 1 + r.Intn(3)
 		c.LateN = 1 + r.Intn(4)
+	}
+	if (c.Topology == "direct" && idx%8 == 4) || (c.Topology == "fanin" && idx%8 == 7) {
+		// several client connections served by one Server object at the same time (ids start at 1
+		// on each of them): the callers are spread over the connections
+		c.Clients = 2 + r.Intn(2)
 	}
 	if c.Topology == "direct" && idx%8 == 5 {
 		// the connection has a history: a streaming call whose handler sent more than its caller
@@ -84,7 +91,12 @@ func c01Run(tier string, seed int64, idx int) *core.Result {
 		h.Jitter = uint64(seed)*7919 + uint64(idx) + 1
 	}
 	h.Install()
-	b := bed.New(bed.Opts{Topology: c.Topology, Clients: 1, Cap: c.Cap, Serialise: c.Serialise})
+	ncl := 1
+	if c.Clients > 1 {
+		ncl = c.Clients
+		res.Stat("cases_with_several_connections_on_one_server", 1)
+	}
+	b := bed.New(bed.Opts{Topology: c.Topology, Clients: ncl, Cap: c.Cap, Serialise: c.Serialise})
 
 	type rec struct {
 		tag               string
@@ -98,6 +110,9 @@ func c01Run(tier string, seed int64, idx int) *core.Result {
 		startSeq, doneSeq uint64
 		ctx               *svc.ManualCtx
 		cancelled, late   bool
+		tok               []byte // binary request metadata (every third call)
+		seenTok           []string
+		conn              int
 	}
 	recs := make([]*rec, c.Callers+c.LateN)
 	byTag := map[string]*rec{}
@@ -111,6 +126,14 @@ func c01Run(tier string, seed int64, idx int) *core.Result {
 		rc.gated = r.Intn(100) < c.GatedPct
 		rc.ctx = svc.NewManualCtx(context.Background())
 		rc.late = i >= c.Callers
+		rc.conn = i
+		if i%3 == 1 {
+			rc.tok = payload(r, 1+i%9) // lengths that need base64 padding, arbitrary bytes
+			rc.tok[0] = 0xfb
+			if len(rc.tok) > 1 {
+				rc.tok[1] = 0xff
+			}
+		}
 		recs[i] = rc
 		byTag[rc.tag] = rc
 		gates[rc.tag] = make(chan struct{})
@@ -124,6 +147,9 @@ func c01Run(tier string, seed int64, idx int) *core.Result {
 		}
 		rc.handlerRuns++
 		rc.seenReq = append([]byte(nil), req...)
+		if md, ok := metadata.FromIncomingContext(ctx); ok {
+			rc.seenTok = md.Get("trace-bin")
+		}
 		gated := rc.gated
 		mu.Unlock()
 		if gated {
@@ -145,7 +171,11 @@ func c01Run(tier string, seed int64, idx int) *core.Result {
 			} else {
 				<-start
 			}
-			got, err := svc.Invoke(rc.ctx, b.Conns[0], rc.tag, rc.req)
+			var cctx context.Context = rc.ctx
+			if rc.tok != nil {
+				cctx = metadata.AppendToOutgoingContext(cctx, "trace-bin", string(rc.tok))
+			}
+			got, err := svc.Invoke(cctx, b.Conns[rc.conn%len(b.Conns)], rc.tag, rc.req)
 			mu.Lock()
 			rc.got, rc.err, rc.done = got, err, true
 			mu.Unlock()
@@ -273,12 +303,16 @@ func c01Run(tier string, seed int64, idx int) *core.Result {
 				res.Violate("request-altered", "handler for %s saw a request of %d bytes that differs from the caller's %d bytes", rc.tag, len(rc.seenReq), len(rc.req))
 			case !bytes.Equal(rc.got, rc.want):
 				res.Violate("reply-mismatch", "caller %s got a reply of %d bytes that differs from its handler's %d bytes", rc.tag, len(rc.got), len(rc.want))
+			case rc.tok != nil && (len(rc.seenTok) != 1 || rc.seenTok[0] != string(rc.tok)):
+				res.Violate("request-altered", "handler for %s saw binary request metadata %q, the caller attached %q", rc.tag, rc.seenTok, rc.tok)
+			case rc.tok != nil:
+				res.Stat("calls_with_binary_request_metadata", 1)
 			}
 		}
 		mu.Unlock()
 		// wire cross-check on the client link: one request and one response per id,
 		// and count replies that overtook an older request
-		if len(b.Links) > 0 {
+		if len(b.Links) > 0 && ncl == 1 {
 			reqAt := map[uint64]int{}
 			nreq, nresp := map[uint64]int{}, map[uint64]int{}
 			overt := 0
@@ -349,15 +383,15 @@ func c01Run(tier string, seed int64, idx int) *core.Result {
 
 func init() {
 	core.Register(&core.Prop{
-		ID:    "C01",
-		Level: "exploration",
-		Rule: "cases = (topology direct|proxy|fanin+demux) x callers {1,2,3,8,16,64} released together on ONE connection x link capacity {0,8} x {serialising, by-reference} x GOMAXPROCS {1,4,16} x handler-gating {0,50,100}% with a releaser letting parked handlers go in PRNG order; payload sizes from {0,1,17,1Ki,4Ki,64Ki} random bytes both ways; every 8th case (direct) first abandons a streaming call on the same connection (handler sent 3..6 messages, caller cancelled without receiving); every 8th direct case with >=16 callers additionally cancels 1..3 callers while they are blocked behind the fully gated server and starts 1..4 late callers before releasing the handlers. Plus (quick 8, thorough 64) cases over the shipped websocket transport on loopback sockets whose writes stall half-way: {2,8,16,64} concurrent callers, payloads 0..64 KiB around the 4 KiB frame chunk, the first 4 handlers held until 4 requests have arrived; wall-clock bound 30 s = inconclusive, only wrong requests/replies are violations. Plus (quick 12, thorough 96) reply-then-connection-end cases: {1,2,4,8} callers are held inside their transport write until their replies have been read and dispatched by the client and the connection has then ended (EOF or read failure); each must still get its reply. A case is non-trivial when, measured on the wire tap, at least one reply overtook an older unanswered request; distinct = distinct case parameter tuples.",
-		Plan:  func(tier string, seed int64) int { return tierN(tier, 96, 3000) + c01WS(tier) + tierN(tier, 12, 96) },
-		Run:   c01Run,
-		MaxStats: []string{"max_concurrent_callers"},
+		ID:          "C01",
+		Level:       "exploration",
+		Rule:        "cases = (topology direct|proxy|fanin+demux) x callers {1,2,3,8,16,64} released together on ONE connection x link capacity {0,8} x {serialising, by-reference} x GOMAXPROCS {1,4,16} x handler-gating {0,50,100}% with a releaser letting parked handlers go in PRNG order; payload sizes from {0,1,17,1Ki,4Ki,64Ki} random bytes both ways; every third call carries binary request metadata (1..9 arbitrary bytes under a -bin key) that the handler must see unchanged; every 8th direct and every 8th fan-in case spreads its callers over 2..3 client connections served by the one Server object at the same time; every 8th case (direct) first abandons a streaming call on the same connection (handler sent 3..6 messages, caller cancelled without receiving); every 8th direct case with >=16 callers additionally cancels 1..3 callers while they are blocked behind the fully gated server and starts 1..4 late callers before releasing the handlers. Plus (quick 8, thorough 64) cases over the shipped websocket transport on loopback sockets whose writes stall half-way: {2,8,16,64} concurrent callers, payloads 0..64 KiB around the 4 KiB frame chunk, the first 4 handlers held until 4 requests have arrived; wall-clock bound 30 s = inconclusive, only wrong requests/replies are violations. Plus (quick 12, thorough 96) reply-then-connection-end cases: {1,2,4,8} callers are held inside their transport write until their replies have been read and dispatched by the client and the connection has then ended (EOF or read failure); each must still get its reply. A case is non-trivial when, measured on the wire tap, at least one reply overtook an older unanswered request; distinct = distinct case parameter tuples.",
+		Plan:        func(tier string, seed int64) int { return tierN(tier, 96, 3000) + c01WS(tier) + tierN(tier, 12, 96) },
+		Run:         c01Run,
+		MaxStats:    []string{"max_concurrent_callers"},
 		Assumptions: []string{"transport is reliable and ordered (harness link)", "proxy topology limited to 12 concurrent calls (below the proxy's 16-slot buffer, see C16)"},
 		RequiredStats: func(string) []string {
-			return []string{"replies_overtaking_older_request", "callers_cancelled_while_blocked", "hook:srv.unary.handoff", "hook:mux.beforeDispatch", "hook:srv.writer.beforeWrite", "ws_unary_calls_checked", "replies_kept_across_connection_end", "streams_abandoned_before_the_calls"}
+			return []string{"replies_overtaking_older_request", "callers_cancelled_while_blocked", "hook:srv.unary.handoff", "hook:mux.beforeDispatch", "hook:srv.writer.beforeWrite", "ws_unary_calls_checked", "replies_kept_across_connection_end", "streams_abandoned_before_the_calls", "calls_with_binary_request_metadata", "cases_with_several_connections_on_one_server"}
 		},
 	})
 }
